@@ -60,6 +60,10 @@ class Net(nn.Module):
         elif a == "tied":  # one Linear used twice in the forward pass (siamese / weight tying): its parameters have TWO uses
             self.l1 = nn.Linear(I, I, bias=bias, dtype=F64)
             self.l2 = nn.Linear(I, O, bias=bias, dtype=F64)
+        elif a == "bn3":  # BatchNorm1d on (B, H, T) activations: per-sample evaluation (functorch) is possible, the batch statistics couple samples
+            self.c = nn.Conv1d(I, H, kernel_size=2, bias=bias, dtype=F64)
+            self.n = nn.BatchNorm1d(H, affine=spec.get("bn_affine", False), track_running_stats=spec.get("bn_trs", False), dtype=F64)
+            self.l2 = nn.Linear(H * (spec["T"] - 1), O, bias=bias, dtype=F64)
         elif a == "bn":  # BatchNorm without affine parameters: couples samples (finding D3)
             self.l1 = nn.Linear(I, H, bias=bias, dtype=F64)
             self.n = nn.BatchNorm1d(H, affine=spec.get("bn_affine", False), track_running_stats=spec.get("bn_trs", False), dtype=F64)
@@ -87,9 +91,9 @@ class Net(nn.Module):
             return self.l2(self.act(self.e(x).mean(dim=1)))
         if a == "embseq":
             return self.l2(self.act(self.l1(self.e(x))).mean(dim=1))
-        if a in ("conv", "gn"):
+        if a in ("conv", "gn", "bn3"):
             h = self.c(x)
-            if a == "gn":
+            if a in ("gn", "bn3"):
                 h = self.n(h)
             return self.l2(self.act(h).flatten(1))
         if a in ("ln", "bn"):
@@ -150,7 +154,7 @@ def gen_spec(rng, archs=None, ghost_safe=False):
 
 def input_rank(spec):
     a = spec["arch"]
-    return {"mlp": 2, "seq": 3, "seq4": 4, "lin": spec.get("rank", 2), "emb": 2, "embseq": 2, "conv": 3, "ln": 2, "lnre": 2, "gn": 3, "bn": 2, "tied": 2}[a]
+    return {"mlp": 2, "seq": 3, "seq4": 4, "lin": spec.get("rank", 2), "emb": 2, "embseq": 2, "conv": 3, "ln": 2, "lnre": 2, "gn": 3, "bn": 2, "bn3": 3, "tied": 2}[a]
 
 
 def gen_data(spec, n, rng):
@@ -166,7 +170,7 @@ def gen_data(spec, n, rng):
         x = torch.randn(n, T, I, generator=g, dtype=F64) * sc
     elif a == "seq4" or (a == "lin" and spec.get("rank") == 4):
         x = torch.randn(n, T, T2, I, generator=g, dtype=F64) * sc
-    elif a in ("conv", "gn"):
+    elif a in ("conv", "gn", "bn3"):
         x = torch.randn(n, I, T, generator=g, dtype=F64) * sc
     else:
         raise ValueError(a)
